@@ -780,3 +780,21 @@ def edge_atoms(f, blk, to_block):
     out = list(q.cond_atoms(f, c, blk["succ"][0] == to_block))
     _expand_named_tests(f, out, (blk["id"], len(blk["el"])))
     return out
+
+
+def alias_guard_edges(f, other_name):
+    """CFG edges (block, successor) on which `this != &other` is known - the test may be spelled either way round, negated, or kept
+    in a bool local (`const bool isSelf = this == &other; if(!isSelf) ...`)"""
+    out = []
+    want = {"this", "&" + other_name}
+    for b in f.blocks.values():
+        if b.get("cond") is None or len(b["succ"]) != 2 or b.get("tk") == "SwitchStmt" or b["succ"][0] == b["succ"][1]:
+            continue
+        for s_ in b["succ"]:
+            if s_ is None:
+                continue
+            for an, tr in edge_atoms(f, b, s_):
+                cn = _canon(f, an, tr)
+                if cn[0] != "val" and cn[1] == "!=" and {cn[0], cn[2]} == want:
+                    out.append((b["id"], s_))
+    return out
